@@ -124,6 +124,22 @@ func materialise(c N, dir string) (string, string) {
 			} else {
 				text = renderFile(list(fn["imports"]), list(fn["body"]))
 			}
+			// a file may ask for a content hash (the parser's name prefix for imported files) that starts with a digit or a letter
+			if hc, ok := fn["hash"].(string); ok {
+				for n := 0; n < 4096; n++ {
+					cand := text
+					if n > 0 {
+						cand = text + fmt.Sprintf("// nonce %d\n", n)
+					}
+					sum := sha256.Sum256([]byte(cand))
+					first := fmt.Sprintf("%x", sum[:1])[0]
+					isDigit := first >= '0' && first <= '9'
+					if (hc == "digit") == isDigit {
+						text = cand
+						break
+					}
+				}
+			}
 			p := filepath.Join(dir, fn["path"].(string))
 			os.MkdirAll(filepath.Dir(p), 0o755)
 			os.WriteFile(p, []byte(text), 0o644)
